@@ -104,7 +104,7 @@ class P:
                     self.i += 1
                     return ("block", items)
                 items.append(self.stmt())
-        m = re.compile(r'(if|while|for)\b').match(s, self.i)
+        m = re.compile(r'(if|while|for|switch)\b').match(s, self.i)
         if m:
             kw = m.group(1)
             self.i = m.end()
@@ -159,7 +159,7 @@ def collect(tree, guards, aliases, out, calls):
         collect(tree[2], guards + [tree[1]], aliases, out, calls)
         if tree[3] is not None:
             collect(tree[3], guards + ["!(" + tree[1] + ")"], aliases, out, calls)
-    elif kind in ("while", "for"):
+    elif kind in ("while", "for", "switch"):
         note_calls(tree[1], calls)
         collect(tree[2], guards + ["loop(" + tree[1] + ")"], aliases, out, calls)
     else:
